@@ -421,7 +421,8 @@ func sourceMappingComment(r *Rng, m []byte, css bool) []byte {
 	case 0:
 		url = "data:application/json," + strings.NewReplacer("%", "%25", "\n", "%0A", " ", "%20", "#", "%23").Replace(string(m))
 	case 1:
-		url = "data:application/json;base64," + base64.StdEncoding.EncodeToString(m)[:r.Intn(8)] // truncated base64
+		enc := base64.StdEncoding.EncodeToString(m)
+		url = "data:application/json;base64," + enc[:r.Intn(minInt(len(enc), 8)+1)] // truncated base64
 	case 2:
 		url = "data:application/json;charset=utf-8;base64," + base64.StdEncoding.EncodeToString(m) + "="
 	}
